@@ -24,6 +24,7 @@ pub fn cfg() -> GenCfg {
         max_pieces: 5,
         max_comp_depth: 3,
         fk_to_null: true,
+        hyphen_vars: true,
         ..GenCfg::default()
     }
 }
